@@ -9,6 +9,8 @@ shard size ≥ 1 and every injective id allocator of the destination.
 -/
 import Dawgs.Proofs.C18
 import Dawgs.Proofs.C18Metrics
+import Dawgs.Proofs.C18Multi
+import Dawgs.Model.C18Num
 namespace Dawgs.C18.Props
 open Dawgs.C18
 
@@ -104,6 +106,46 @@ theorem verify_iff_match {P : Type} (expected : Metrics) (nodes : List (Node P))
       ∃ actual, graphMetrics nodes edges = some actual ∧ MetricsAgree expected actual :=
   verify_ok_iff expected nodes edges
 
+/-- The Verify clause, precisely. `Verify` collects the metrics of the database graph (`graphMetrics`: id-ordered
+scans; `none` when a relationship endpoint is not a node of the graph) and compares them with the manifest's:
+* it succeeds exactly when the collection succeeds and the metrics are EQUAL in the sense of
+  `compareGraphMetrics`: equal node and relationship counts and, for each of the six histograms (node kind
+  sets, relationship kinds, in-, out-, total degree, endpoint kind triples), equal as multisets of keys;
+* it reports a mismatch exactly when the collection succeeds and they are not;
+* it errors exactly when the collection fails.
+Metrics equality is implied by isomorphism (`verify_accepts_loaded`, `AllOk.verify`) but does not imply it
+(`verify_gap`): that direction of "exactly when the graphs match" is the refuted part of `C18_full`. -/
+theorem verify_iff_metrics_equal {P : Type} (expected : Metrics) (nodes : List (Node P)) (edges : List (Edge P)) :
+    (verify expected nodes edges = .ok ↔ ∃ actual, graphMetrics nodes edges = some actual ∧ MetricsAgree expected actual) ∧
+    (verify expected nodes edges = .mismatch ↔ ∃ actual, graphMetrics nodes edges = some actual ∧ ¬ MetricsAgree expected actual) ∧
+    (verify expected nodes edges = .error ↔ graphMetrics nodes edges = none) ∧
+    (∀ actual, MetricsAgree expected actual ↔
+      expected.nodeCount = actual.nodeCount ∧ expected.edgeCount = actual.edgeCount ∧
+      expected.nodeKinds.Perm actual.nodeKinds ∧ expected.edgeKinds.Perm actual.edgeKinds ∧
+      expected.inDeg.Perm actual.inDeg ∧ expected.outDeg.Perm actual.outDeg ∧ expected.totDeg.Perm actual.totDeg ∧
+      expected.endpoints.Perm actual.endpoints) := by
+  refine ⟨verify_ok_iff expected nodes edges, ?_, ?_, ?_⟩
+  · unfold verify
+    cases hm : graphMetrics nodes edges with
+    | none => simp
+    | some actual =>
+      simp only [Option.some.injEq, exists_eq_left']
+      rw [← agree_iff]
+      by_cases h : expected.agree actual = true <;> simp [h]
+  · unfold verify
+    cases hm : graphMetrics nodes edges with
+    | none => simp
+    | some actual => by_cases h : expected.agree actual = true <;> simp [h]
+  · intro actual
+    constructor
+    · intro h
+      exact ⟨h.nodeCount, h.edgeCount, (histAgree_iff_perm _ _).mp h.nodeKinds, (histAgree_iff_perm _ _).mp h.edgeKinds,
+        (histAgree_iff_perm _ _).mp h.inDeg, (histAgree_iff_perm _ _).mp h.outDeg, (histAgree_iff_perm _ _).mp h.totDeg,
+        (histAgree_iff_perm _ _).mp h.endpoints⟩
+    · rintro ⟨h1, h2, h3, h4, h5, h6, h7, h8⟩
+      exact ⟨h1, h2, (histAgree_iff_perm _ _).mpr h3, (histAgree_iff_perm _ _).mpr h4, (histAgree_iff_perm _ _).mpr h5,
+        (histAgree_iff_perm _ _).mpr h6, (histAgree_iff_perm _ _).mpr h7, (histAgree_iff_perm _ _).mpr h8⟩
+
 /-- Verification of the loaded database against the manifest succeeds: the metrics `Verify` collects from
 `load (dump g)` agree with the metrics the dump recorded (the histograms are invariant under the loader's node
 correspondence and under the order in which the destination returns entities). -/
@@ -123,51 +165,43 @@ theorem verify_accepts_loaded {P B D : Type} [DecidableEq D] (c : Codec P B D) (
     exact ⟨List.mem_map.mpr ⟨n1, hperm.mem_iff.mpr hn1, h1⟩, List.mem_map.mpr ⟨n2, hperm.mem_iff.mpr hn2, h2⟩⟩
   have hl := load_assemble c g shard lbatch (sortedNodes g) (sortedEdges g) m alloc allocE nc ec hN hE
     (sortBy_length _ _) (sortBy_length _ _)
-  refine ⟨_, _, _, hd, hl, ?_⟩
-  have hiso := iso_of_load g hw alloc allocE halloc nc ec
-  have hndr : (((sortedNodes g).map Node.toRec).map (fun r => r.id)).Nodup := by rw [toRec_ids]; exact hN
-  have hnodes := newNodes_eq_map alloc ((sortedNodes g).map Node.toRec) nc hndr
-  rw [verify_iff_match]
-  show ∃ actual, graphMetrics (newNodes alloc nc ((sortedNodes g).map Node.toRec))
-      (newEdges allocE (phiOf (newMap alloc nc ((sortedNodes g).map Node.toRec))) ec ((sortedEdges g).map Edge.toRec)) = some actual ∧
-      MetricsAgree m actual
-  unfold graphMetrics
-  apply metrics_invariant (dumpNodeObs g) _ (dumpEdgeObs g) _ (phiOf (newMap alloc nc ((sortedNodes g).map Node.toRec)))
-  · -- distinct ids in the dump's node stream
-    have : (dumpNodeObs g).map (fun p => p.1) = (sortedNodes g).map (fun n => n.id) := by
-      unfold dumpNodeObs; rw [List.map_map]; rfl
-    rw [this]; exact hN
-  · -- the id map is injective on them
-    have : (dumpNodeObs g).map (fun p => p.1) = (sortedNodes g).map (fun n => n.id) := by
-      unfold dumpNodeObs; rw [List.map_map]; rfl
-    rw [this]
-    intro a ha b hb hab
-    exact hiso.inj a ((hperm.map _).mem_iff.mp ha) b ((hperm.map _).mem_iff.mp hb) hab
-  · -- endpoints are nodes
-    have : (dumpNodeObs g).map (fun p => p.1) = (sortedNodes g).map (fun n => n.id) := by
-      unfold dumpNodeObs; rw [List.map_map]; rfl
-    rw [this]
-    intro e he
-    obtain ⟨e', he', rfl⟩ := List.mem_map.mp he
-    exact hE e' he'
-  · -- the destination's node stream is a permutation of the renamed source stream
-    refine ((sortBy_perm _ _).map _).trans ?_
-    rw [hnodes]
-    apply List.Perm.of_eq
-    unfold dumpNodeObs
-    simp only [List.map_map]
-    apply List.map_congr_left
-    intro n _
-    rfl
-  · refine ((sortBy_perm _ _).map _).trans ?_
-    apply List.Perm.of_eq
-    have hs := newEdges_strip allocE (phiOf (newMap alloc nc ((sortedNodes g).map Node.toRec))) ((sortedEdges g).map Edge.toRec) ec
-    have := congrArg (List.map (fun t : Nat × Nat × String × P => (t.1, t.2.1, t.2.2.1))) hs
-    simp only [List.map_map] at this
-    unfold dumpEdgeObs
-    simp only [List.map_map]
-    exact this
-  · exact hm
+  exact ⟨_, _, _, hd, hl, verify_loaded g hw alloc allocE halloc nc ec m hm⟩
+
+/-! ### The whole collection: several graphs -/
+
+/-- `Dump` over a target list: it succeeds and the manifest holds one entry per target graph — every graph
+exactly once, in the order of the target list — and, when the target names are distinct, all fragment paths
+of the directory are distinct (no graph writes into another graph's files). -/
+theorem dump_all_graphs {P B D : Type} (c : Codec P B D) (db : List (Graph P)) (hw : ∀ g ∈ db, WF g)
+    (batch shard : Nat) (hb : 1 ≤ batch) :
+    ∃ ds, dumpAll c batch shard db = .ok ds ∧ ds.length = db.length ∧
+      ds.map (fun d => d.manifest.name) = db.map (fun g => g.name) ∧
+      ((db.map (fun g => g.name)).Nodup → ((allFiles ds).map (fun f => f.1)).Nodup) := by
+  obtain ⟨ds, hds, hD⟩ := dumpAll_spec c batch shard hb db hw
+  exact ⟨ds, hds, Dumped.length c shard db ds hD, Dumped.names c shard db ds hD, Dumped.paths_nodup c shard db ds hD⟩
+
+/-- `Load` of the dump of a multi-graph database into an empty database: all fragments verify, every graph of
+the manifest is loaded exactly once in the manifest's order, and for EACH graph (`AllOk` / `GraphOk`): the
+manifest entry describes its files and counts, the loaded graph is isomorphic to the source graph under that
+graph's own id map, the id map holds exactly that graph's source node ids (nothing leaks between graphs; the
+destination's creation counters simply run on), and Verify accepts it. -/
+theorem load_all_graphs {P B D : Type} [DecidableEq D] (c : Codec P B D) (db : List (Graph P)) (hw : ∀ g ∈ db, WF g)
+    (hnames : (db.map (fun g => g.name)).Nodup) (batch shard lbatch : Nat) (hb : 1 ≤ batch)
+    (alloc allocE : Nat → Nat) (halloc : ∀ a b, alloc a = alloc b → a = b) (nc ec : Nat) :
+    ∃ ds rs, dumpAll c batch shard db = .ok ds ∧
+      loadAll c (allFiles ds) (ds.map (fun d => d.manifest)) lbatch alloc allocE nc ec = .ok rs ∧
+      AllOk c db ds rs := by
+  obtain ⟨ds, hds, hD⟩ := dumpAll_spec c batch shard hb db hw
+  have hnd := Dumped.paths_nodup c shard db ds hD hnames
+  have hsub : ∀ d ∈ ds, ∀ f ∈ d.files, f ∈ allFiles ds := by
+    intro d hd f hf
+    unfold allFiles
+    exact List.mem_flatten.mpr ⟨d.files, List.mem_map.mpr ⟨d, hd, rfl⟩, hf⟩
+  obtain ⟨rs, hrs, hok⟩ := loadGraphs_spec c shard lbatch alloc allocE halloc (allFiles ds) hnd db ds hD hw hsub nc ec
+  refine ⟨ds, rs, hds, ?_, hok⟩
+  unfold loadAll
+  rw [verifyAll_spec c shard (allFiles ds) hnd db ds hD hw hsub]
+  exact hrs
 
 /-! ### The gap between metrics equality and isomorphism -/
 
@@ -222,70 +256,95 @@ theorem verify_gap :
 
 /-! ### The full statement -/
 
-/-- C18 at the strength of properties.jsonl, for one graph of the dump: dump succeeds, the manifest
-describes the files, load into an empty target succeeds and is an isomorphism, and verification of a
-database against the manifest succeeds *exactly when* that database is isomorphic to the source. -/
+/-- C18 at the strength of properties.jsonl: for every database of several well-formed graphs with distinct
+names, the dump succeeds, load into an empty database succeeds, for every graph the manifest describes the files
+and the loaded graph is isomorphic to the source (`AllOk`), and verification of a database graph against a
+graph's manifest metrics succeeds *exactly when* it is isomorphic to that source graph. -/
 def C18_full : Prop :=
-  ∀ (P B D : Type) [DecidableEq D] (c : Codec P B D) (g : Graph P), WF g →
+  ∀ (P B D : Type) [DecidableEq D] (c : Codec P B D) (db : List (Graph P)), (∀ g ∈ db, WF g) → (db.map (fun g => g.name)).Nodup →
   ∀ (batch shard lbatch : Nat), 1 ≤ batch → 1 ≤ shard → 1 ≤ lbatch →
   ∀ (alloc allocE : Nat → Nat), (∀ a b, alloc a = alloc b → a = b) → ∀ (nc ec : Nat),
-    ∃ gd d idmap, dumpGraph c g batch shard = .ok gd ∧
-      Describes c gd.manifest.files gd.files ∧
-      load c gd lbatch alloc allocE { nodes := [], edges := [], nodeCtr := nc, edgeCtr := ec } = .ok (d, idmap) ∧
-      Iso g d.nodes d.edges (phiOf idmap) ∧
-      (∀ (nodes' : List (Node P)) (edges' : List (Edge P)),
-        verify gd.manifest.metrics nodes' edges' = .ok ↔ ∃ φ, Iso g nodes' edges' φ)
+    ∃ ds rs, dumpAll c batch shard db = .ok ds ∧
+      loadAll c (allFiles ds) (ds.map (fun d => d.manifest)) lbatch alloc allocE nc ec = .ok rs ∧
+      AllOk c db ds rs ∧
+      (∀ g d, (g, d) ∈ db.zip ds → ∀ (nodes' : List (Node P)) (edges' : List (Edge P)),
+        verify d.manifest.metrics nodes' edges' = .ok ↔ ∃ φ, Iso g nodes' edges' φ)
 
-/-- What holds for the code as it is: everything in `C18_full` with "verification succeeds exactly
-when the graphs match" weakened to "verification of the loaded database succeeds, and verification of any
-database succeeds exactly when the compared histograms agree". -/
+/-- What holds for the code as it is: everything in `C18_full`, with "verification succeeds exactly when the
+graphs match" weakened to: verification of the loaded graphs succeeds (inside `AllOk`), and verification of any
+database graph succeeds exactly when its metrics equal the manifest's (`verify_iff_metrics_equal`). -/
 def C18_partial : Prop :=
-  ∀ (P B D : Type) [DecidableEq D] (c : Codec P B D) (g : Graph P), WF g →
+  ∀ (P B D : Type) [DecidableEq D] (c : Codec P B D) (db : List (Graph P)), (∀ g ∈ db, WF g) → (db.map (fun g => g.name)).Nodup →
   ∀ (batch shard lbatch : Nat), 1 ≤ batch → 1 ≤ shard → 1 ≤ lbatch →
   ∀ (alloc allocE : Nat → Nat), (∀ a b, alloc a = alloc b → a = b) → ∀ (nc ec : Nat),
-    ∃ gd d idmap, dumpGraph c g batch shard = .ok gd ∧
-      Describes c gd.manifest.files gd.files ∧
-      load c gd lbatch alloc allocE { nodes := [], edges := [], nodeCtr := nc, edgeCtr := ec } = .ok (d, idmap) ∧
-      Iso g d.nodes d.edges (phiOf idmap) ∧
-      verify gd.manifest.metrics d.nodes d.edges = .ok ∧
-      (∀ (nodes' : List (Node P)) (edges' : List (Edge P)),
-        verify gd.manifest.metrics nodes' edges' = .ok ↔
-          ∃ actual, graphMetrics nodes' edges' = some actual ∧ MetricsAgree gd.manifest.metrics actual)
+    ∃ ds rs, dumpAll c batch shard db = .ok ds ∧
+      loadAll c (allFiles ds) (ds.map (fun d => d.manifest)) lbatch alloc allocE nc ec = .ok rs ∧
+      AllOk c db ds rs ∧
+      (∀ g d, (g, d) ∈ db.zip ds → ∀ (nodes' : List (Node P)) (edges' : List (Edge P)),
+        verify d.manifest.metrics nodes' edges' = .ok ↔
+          ∃ actual, graphMetrics nodes' edges' = some actual ∧ MetricsAgree d.manifest.metrics actual)
 
 theorem c18_partial : C18_partial := by
-  intro P B D _ c g hw batch shard lbatch hb _ _ alloc allocE halloc nc ec
-  obtain ⟨gd, d, idmap, hd, hl, hiso, _, _⟩ := load_iso c g hw batch shard lbatch hb alloc allocE halloc nc ec
-  obtain ⟨gd', hd', hdesc, _⟩ := manifest_describes_files c g hw batch shard hb
-  have : gd' = gd := by rw [hd] at hd'; exact (Except.ok.inj hd').symm
-  subst this
-  obtain ⟨gd2, d2, idmap2, hd2, hl2, hv2⟩ := verify_accepts_loaded c g hw batch shard lbatch hb alloc allocE halloc nc ec
-  have e1 : gd2 = gd' := by rw [hd] at hd2; exact (Except.ok.inj hd2).symm
-  subst e1
-  have e2 : (d2, idmap2) = (d, idmap) := by rw [hl] at hl2; exact (Except.ok.inj hl2).symm
-  have e3 : d2 = d := congrArg Prod.fst e2
-  subst e3
-  exact ⟨gd2, d2, idmap, hd, hdesc, hl, hiso, hv2, fun n e => verify_iff_match _ n e⟩
+  intro P B D _ c db hw hnames batch shard lbatch hb _ _ alloc allocE halloc nc ec
+  obtain ⟨ds, rs, hd, hl, hok⟩ := load_all_graphs c db hw hnames batch shard lbatch hb alloc allocE halloc nc ec
+  exact ⟨ds, rs, hd, hl, hok, fun _ d _ n e => verify_iff_match d.manifest.metrics n e⟩
 
 /-- The full statement fails: `Verify` is a metrics fingerprint, not an isomorphism test. -/
 theorem c18_full_refuted : ¬ C18_full := by
   intro h
-  obtain ⟨gd, d, idmap, hd, _, _, _, hv⟩ :=
-    h Unit (Content Unit) (Content Unit)
-      { enc := id, dec := some, digest := id, size := Content.count, dec_enc := fun _ => rfl }
-      gapA gapA_wf 1 1 1 (Nat.le_refl _) (Nat.le_refl _) (Nat.le_refl _) id id (fun _ _ h => h) 0 0
-  obtain ⟨m, hm, hd'⟩ := dumpGraph_ok
-      ({ enc := id, dec := some, digest := id, size := Content.count, dec_enc := fun _ => rfl } : Codec Unit (Content Unit) (Content Unit))
-      gapA gapA_wf 1 1 (Nat.le_refl _)
+  let c : Codec Unit (Content Unit) (Content Unit) :=
+    { enc := id, dec := some, digest := id, size := Content.count, dec_enc := fun _ => rfl }
+  have hw : ∀ g ∈ [gapA], WF g := by intro g hg; simp at hg; subst hg; exact gapA_wf
+  obtain ⟨ds, rs, hd, _, _, hv⟩ :=
+    h Unit (Content Unit) (Content Unit) c [gapA] hw (by simp) 1 1 1 (Nat.le_refl _) (Nat.le_refl _) (Nat.le_refl _)
+      id id (fun _ _ h => h) 0 0
+  obtain ⟨ds', hd', hD⟩ := dumpAll_spec c 1 1 (Nat.le_refl _) [gapA] hw
   rw [hd] at hd'
-  have hgd := Except.ok.inj hd'
-  have hmet : gd.manifest.metrics = m := by rw [hgd]; rfl
-  have hm' : graphMetrics gapA.nodes gapA.edges = some m := hm
-  rw [gapA_metrics] at hm'
-  have : m = gapMetrics := (Option.some.inj hm').symm
-  rw [this] at hmet
-  have hok := verify_gap.2.2.2.1
-  rw [← hmet] at hok
-  exact gap_not_iso ((hv gapB.nodes gapB.edges).mp hok)
+  have hds : ds = ds' := Except.ok.inj hd'
+  subst hds
+  cases ds with
+  | nil => exact absurd hD (by simp [Dumped])
+  | cons d rest =>
+    simp only [Dumped] at hD
+    obtain ⟨⟨m, hm, hdm⟩, _⟩ := hD
+    have hmet : d.manifest.metrics = m := by rw [hdm]; rfl
+    have hm' : graphMetrics gapA.nodes gapA.edges = some m := hm
+    rw [gapA_metrics] at hm'
+    have : m = gapMetrics := (Option.some.inj hm').symm
+    rw [this] at hmet
+    have hok := verify_gap.2.2.2.1
+    rw [← hmet] at hok
+    exact gap_not_iso ((hv gapA d (by simp) gapB.nodes gapB.edges).mp hok)
+
+/-! ### Integer property values through dump and load (the number leaf of the JSON value model)
+
+The protocol theorems above are parametric in the property type and in a codec with `dec (enc x) = x`. For
+the real codec that assumption holds for every JSON value except integers beyond 2^53: -/
+
+/-- current code: an integer property survives the round trip when |i| ≤ 2^53 … -/
+theorem int_round_trip_current (i : Int) (h : -(2 : Int) ^ 53 ≤ i ∧ i ≤ (2 : Int) ^ 53) : loadIntCurrent i = i := by
+  unfold loadIntCurrent roundToF64
+  have round_small : ∀ n : Nat, n ≤ 2 ^ 53 → roundNatToF64 n = n := by
+    intro n hn
+    unfold roundNatToF64
+    by_cases hlt : n < 2 ^ 53
+    · simp [hlt]
+    · have : n = 2 ^ 53 := by omega
+      subst this
+      decide
+  by_cases h0 : 0 ≤ i
+  · rw [if_pos h0, round_small i.toNat (by omega)]; omega
+  · rw [if_neg h0, round_small (-i).toNat (by omega)]; omega
+
+/-- … and not beyond (known finding `C18:Load.decodeFragment:int-beyond-2^53`): 2^53+1 comes back as 2^53,
+MaxInt64 as 2^63 -/
+theorem int_round_trip_current_lossy :
+    loadIntCurrent 9007199254740993 = 9007199254740992 ∧ loadIntCurrent 9223372036854775807 = 9223372036854775808 := by
+  decide
+
+/-- with hooks/C18-fix.patch every int64 survives the round trip exactly -/
+theorem int_round_trip_fixed (i : Int) (h : inInt64 i) : loadIntFixed i = i := by
+  unfold loadIntFixed; rw [if_pos h]
 
 /-! ### Non-vacuity -/
 
@@ -311,5 +370,15 @@ example : ¬ Iso sample sample.nodes (sample.edges.drop 1) id := by
   intro h
   have := h.edges.length_eq
   simp [sample] at this
+
+/-- a database of two graphs (one of them empty) with distinct names: the collection theorem applies -/
+def sample2 : Graph String := { name := "g2", nodes := [], edges := [] }
+
+example : ∃ ds rs, dumpAll sampleCodec 2 2 [sample, sample2] = .ok ds ∧
+    loadAll sampleCodec (allFiles ds) (ds.map (fun d => d.manifest)) 3 (fun k => 1000 + 3 * k) id 0 0 = .ok rs ∧
+    AllOk sampleCodec [sample, sample2] ds rs :=
+  load_all_graphs sampleCodec [sample, sample2]
+    (by intro g hg; simp at hg; rcases hg with h | h <;> (subst h; constructor <;> decide))
+    (by decide) 2 2 3 (by decide) _ _ (by intro a b h; omega) 0 0
 
 end Dawgs.C18.Props
